@@ -182,9 +182,31 @@ fn rticks(r: &mut Rng) -> i64 {
             let d = if m == 2 && d == 29 && !(y % 4 == 0 && (y % 100 != 0 || y % 400 == 0)) { 28 } else { d };
             DateTime::ymd(y, m, d).ticks() + r.range(-20_000_000, 20_000_000)
         }
-        5 => -(r.below(1_000_000_000_000) as i64),
+        5 => if r.chance(1, 2) { -(r.below(1_000_000_000_000) as i64) } else {
+            // inside the first / last second, minute, hour, day, year of the range
+            let span = *r.pick(&[10_000_000i64, 600_000_000, 36_000_000_000, 864_000_000_000, 315_360_000_000_000]);
+            let d = r.below(span as u64) as i64;
+            if r.chance(1, 2) { END_TICKS - d } else { d }
+        },
         _ => r.below(END_TICKS as u64 + 1) as i64,
     }
+}
+/// a date-time text with 0..12 fractional digits at the borders of tick / millisecond truncation,
+/// second / day / year borders, leap seconds and offsets that cross the epoch or the end time
+fn date_text(r: &mut Rng) -> String {
+    let (y, mo, d) = *r.pick(&[(1601u32, 1u32, 1u32), (1600, 12, 31), (9999, 12, 31), (2000, 2, 29), (1999, 12, 31), (2015, 6, 30), (1970, 1, 1), (2038, 1, 19), (9999, 1, 1), (1601, 12, 31)]);
+    let (h, mi, se) = *r.pick(&[(0u32, 0u32, 0u32), (23, 59, 59), (23, 59, 60), (12, 0, 0), (0, 0, 1), (23, 59, 58)]);
+    let nd = r.below(13) as usize;
+    let frac: String = match r.below(6) {
+        0 => "9".repeat(nd),
+        1 => "0".repeat(nd),
+        2 => { let mut f = "9".repeat(nd.saturating_sub(1)); if nd > 0 { f.push(*r.pick(&['4', '5', '6'])); } f }
+        3 => { let mut f = "0".repeat(nd.saturating_sub(1)); if nd > 0 { f.push(*r.pick(&['1', '5', '9'])); } f }
+        _ => (0..nd).map(|_| char::from(b'0' + r.below(10) as u8)).collect(),
+    };
+    let off = *r.pick(&["Z", "Z", "+00:00", "-00:00", "+00:01", "-00:01", "+23:59", "-23:59", "+01:00", "z", ""]);
+    let sep = *r.pick(&["T", "T", "T", " ", "t"]);
+    format!("{:04}-{:02}-{:02}{}{:02}:{:02}:{:02}{}{}{}", y, mo, d, sep, h, mi, se, if nd > 0 { "." } else { "" }, frac, off)
 }
 fn mutate(r: &mut Rng, s: &str) -> String {
     let mut v: Vec<char> = s.chars().collect();
@@ -217,6 +239,118 @@ fn printed(r: &mut Rng, which: u8) -> String {
         6 => DateTime::from(rticks(r)).to_string(),
         _ => DateTime::from(rticks(r)).to_rfc3339(),
     }
+}
+
+// ---- history: the printers and parsers are meant to be pure functions, but they sit on process-wide
+// state (lazy_static regexes today; a cache tomorrow).  Every case therefore first runs the same
+// operations on values / strings that are NEIGHBOURS of the observed one (same identifier under another
+// namespace, same namespace with another identifier, a string with one character more or less, ...),
+// then the observed operation, then the observed operation a second time; the output is that of the
+// first observed run, followed by the marker -3 if the second run differs.  The neighbours are derived
+// from the case alone, so a replay of one case reproduces the history.
+fn nb_id(id: &Id) -> Vec<Id> {
+    match id {
+        Id::Num(v) => vec![Id::Num(v ^ 1), Id::Num(v.wrapping_add(65536)), Id::Num(v / 10), Id::Str(Some(v.to_string()))],
+        Id::Str(None) => vec![Id::Str(Some("x".into()))],
+        Id::Str(Some(s)) => {
+            let mut a = s.clone(); a.push('x');
+            let b: String = { let mut c: Vec<char> = s.chars().collect(); c.pop(); c.into_iter().collect() };
+            let c: String = s.chars().rev().collect();
+            vec![Id::Str(Some(a)), Id::Str(Some(b)), Id::Str(Some(c)), Id::Bytes(Some(s.as_bytes().to_vec()))]
+        }
+        Id::Guid(b) => { let mut x = *b; x[15] ^= 1; let mut y = *b; y[0] ^= 0x80; let mut z = *b; z.reverse(); vec![Id::Guid(x), Id::Guid(y), Id::Guid(z)] }
+        Id::Bytes(None) => vec![Id::Bytes(Some(vec![0]))],
+        Id::Bytes(Some(v)) => {
+            let mut a = v.clone(); a.push(0);
+            let mut b = v.clone(); b.pop();
+            let mut c = v.clone(); if let Some(x) = c.last_mut() { *x ^= 1; }
+            vec![Id::Bytes(Some(a)), Id::Bytes(Some(b)), Id::Bytes(Some(c))]
+        }
+    }
+}
+fn nb_ns(ns: u16) -> Vec<u16> { vec![ns ^ 1, ns.wrapping_add(256), if ns == 0 { 65535 } else { 0 }] }
+fn nb_nodes(ns: u16, id: &Id) -> Vec<NodeId> {
+    let mut v: Vec<NodeId> = nb_ns(ns).into_iter().map(|n| NodeId::new(n, ident(id))).collect();
+    v.extend(nb_id(id).iter().map(|i| NodeId::new(ns, ident(i))));
+    v
+}
+fn mk_exp(svr: u32, uri: &Option<String>, ns: u16, id: &Id) -> ExpandedNodeId {
+    ExpandedNodeId { node_id: NodeId::new(ns, ident(id)), namespace_uri: match uri { None => UAString::null(), Some(u) => UAString::from(u.as_str()) }, server_index: svr }
+}
+fn nb_exps(svr: u32, uri: &Option<String>, ns: u16, id: &Id) -> Vec<ExpandedNodeId> {
+    let mut v = Vec::new();
+    for s in [svr ^ 1, svr.wrapping_add(1 << 16), if svr == 0 { u32::MAX } else { 0 }] { v.push(mk_exp(s, uri, ns, id)); }
+    let uris: Vec<Option<String>> = match uri {
+        None => vec![Some("u".into()), Some(";".into())],
+        Some(u) => { let mut a = u.clone(); a.push('%'); let mut b = u.clone(); b.pop(); let c = u.replace('%', "%25").replace(';', "%3b"); vec![None, Some(a), Some(b), Some(c), Some(u.to_uppercase())] }
+    };
+    for u in &uris { v.push(mk_exp(svr, u, if u.is_some() { 0 } else { ns }, id)); }
+    for n in nb_ns(ns) { v.push(mk_exp(svr, uri, n, id)); }
+    for i in nb_id(id) { v.push(mk_exp(svr, uri, ns, &i)); }
+    v
+}
+fn nb_r1(r: &R1) -> Vec<R1> {
+    match r {
+        R1::Idx(i) => vec![R1::Idx(i ^ 1), R1::Idx(i / 10), R1::Rng(*i, i.saturating_add(1)), R1::Rng(0, *i)],
+        R1::Rng(a, b) => vec![R1::Rng(*a, b.saturating_add(1)), R1::Rng(a ^ 1, *b), R1::Rng(*b, *a), R1::Idx(*a), R1::Idx(*b)],
+    }
+}
+fn nb_nr(r: &NR) -> Vec<NR> {
+    match r {
+        NR::None => vec![NR::One(R1::Idx(0))],
+        NR::One(x) => { let mut v: Vec<NR> = nb_r1(x).into_iter().map(NR::One).collect(); v.push(NR::Multi(vec![x.clone(), x.clone()])); v.push(NR::None); v }
+        NR::Multi(l) => {
+            let mut v = Vec::new();
+            let mut a = l.clone(); a.push(R1::Idx(7)); v.push(NR::Multi(a));
+            let mut b = l.clone(); b.pop(); v.push(NR::Multi(b));
+            let mut c = l.clone(); c.reverse(); v.push(NR::Multi(c));
+            if let Some(x) = l.first() { v.push(NR::One(x.clone())); for y in nb_r1(x) { let mut d = l.clone(); d[0] = y; v.push(NR::Multi(d)); } }
+            v
+        }
+    }
+}
+fn nb_ticks(t: i64) -> Vec<i64> {
+    vec![t.saturating_add(1), t.saturating_sub(1), t.saturating_add(10_000), t.saturating_sub(10_000), t.saturating_add(10_000_000), t.saturating_sub(10_000_000),
+         t / 10_000_000 * 10_000_000, t.saturating_add(864_000_000_000), t ^ 0x5555]
+}
+/// strings next to `s`: one character more / less at either end, a changed digit, another prefix
+fn nb_strings(s: &str) -> Vec<String> {
+    let c: Vec<char> = s.chars().collect();
+    let mut v: Vec<String> = Vec::new();
+    v.push(format!("{}0", s));
+    v.push(format!("ns=7;{}", s));
+    v.push(format!("svr=1;{}", s));
+    if !c.is_empty() {
+        v.push(c[..c.len() - 1].iter().collect());
+        v.push(c[1..].iter().collect());
+        let mut d = c.clone();
+        if let Some(i) = d.iter().position(|x| x.is_ascii_digit()) { d[i] = if d[i] == '9' { '0' } else { ((d[i] as u8) + 1) as char }; }
+        v.push(d.into_iter().collect());
+        let mut e = c.clone();
+        if let Some(i) = e.iter().rposition(|x| x.is_ascii_alphanumeric()) { e[i] = if e[i] == 'A' { 'B' } else { 'A' }; }
+        v.push(e.into_iter().collect());
+        v.push(s.to_uppercase());
+    }
+    v
+}
+fn parse_any(w: u8, s: &str) {
+    let _ = guarded(|| match w {
+        0 => { let _ = NodeId::from_str(s); }
+        1 => { let _ = ExpandedNodeId::from_str(s); }
+        2 => { let _ = Identifier::from_str(s); }
+        3 => { let _ = Guid::from_str(s); }
+        4 => { let _ = NumericRange::from_str(s); }
+        5 => { let _ = ByteString::from_base64(s); }
+        6 => { let _ = DateTime::from_str(s); }
+        _ => { let _ = DateTime::parse_from_rfc3339(s); }
+    });
+}
+/// run `f` twice; the output is the first run's, with -3 appended if the second differs
+fn twice<F: Fn(&mut Vec<i128>)>(f: F, out: &mut Vec<i128>) {
+    let mut a = Vec::new(); f(&mut a);
+    let mut b = Vec::new(); f(&mut b);
+    out.extend(a.iter().cloned());
+    if a != b { out.push(-3); }
 }
 
 impl Property for P {
@@ -259,6 +393,13 @@ impl Property for P {
             Case::Exp { svr: u32::MAX, uri: s("%"), ns: 0, id: Id::Str(s(";")) },
             Case::Exp { svr: 3, uri: s("%3b"), ns: 0, id: Id::Bytes(Some(vec![1, 2, 3, 4])) },
             Case::Exp { svr: 3, uri: s("%253b;25"), ns: 0, id: Id::Guid([0; 16]) },
+            // escape sequences of the uri inside the identifier stay as they are
+            Case::Exp { svr: 3, uri: s("u"), ns: 0, id: Id::Str(s("a%3bb%25c;d%")) },
+            Case::Exp { svr: 0, uri: None, ns: 4, id: Id::Str(s("%3b%25")) },
+            Case::Node { ns: 4, id: Id::Str(s("%3b%25;nsu=x;")) },
+            // the last day and the last year of the range, the first day
+            Case::Date(END_TICKS - 10_000_000), Case::Date(END_TICKS - 864_000_000_000 + 10_000_000), Case::Date(END_TICKS - 863_999_999_999), Case::Date(END_TICKS - 315_360_000_000_000),
+            Case::Date(864_000_000_000 - 1), Case::Date(9_999_999), Case::Date(10_000_001),
             Case::Exp { svr: 3, uri: s("u"), ns: 7, id: Id::Num(1) },   // URI and namespace index: index is not printed
             Case::Exp { svr: 3, uri: s(""), ns: 7, id: Id::Num(1) },    // empty non-null URI parses back as null
             Case::Guid([0; 16]), Case::Guid([0xff; 16]),
@@ -289,8 +430,11 @@ impl Property for P {
             (5u8, vec!["", "Q", "QQ", "QQ=", "QQ==", "QR==", "QUI=", "QUJ=", "QUJD", "QUJDR", "QUJDRA==", "QUJDRA=", "QUJDRA", "====", "Q===", "QQ==QQ==", "QUJD====", "QUJDRUZHSA==", "QUJDRUZH", "QUJDRUZHS", "QUJDRUZ=",
                        "QUJD RUZH", "QUJD\n", "-_-_", "+/+/", "é", "QUJé", "QUJDRUZHSElKS0xNTk9QUVJTVFVWV1hZWmFiY2RlZmdoaWprbG1ub3BxcnN0dXZ3eHl6MDEyMzQ1Njc4OSsv", "QUJDRUZHSElKS0xNTk9QUVJTVFVWV1hZ=mFi", "=QUJ", "Q=UJ", "QU=J"]),
             (6u8, vec!["", "2000-01-01T00:00:00+00:00", "2000-01-01T00:00:00Z", "2000-01-01 00:00:00Z", "2000-01-01T00:00:00.1234567Z", "2000-01-01T00:00:00.123456789+01:00", "1600-12-31T23:59:59Z",
+                       "2000-01-01T00:00:00.99999994Z", "2000-01-01T00:00:00.99999995Z", "2000-01-01T00:00:00.999999999Z", "2000-01-01T23:59:59.99999999Z", "2000-01-01T00:00:00.00000005Z",
+                       "9999-12-31T23:59:59.999999999Z", "9999-12-31T23:59:60.5Z", "1600-12-31T23:59:59.999999999Z", "1601-01-01T00:00:00.000000001Z", "2015-06-30T23:59:60.99999999Z",
                        "9999-12-31T23:59:59.9999999Z", "2015-06-30T23:59:60Z", "2000-02-30T00:00:00Z", "2000-01-01", "x", "2000-01-01T00:00:00UTC", "2000-01-01T00:00:00é", "é", "+10000-01-01T00:00:00Z", "0000-01-01T00:00:00Z", "-0001-01-01T00:00:00Z"]),
             (7u8, vec!["", "2000-01-01T00:00:00+00:00", "2000-01-01T00:00:00Z", "2000-01-01 00:00:00Z", "2000-01-01T00:00:00.1234567Z", "2000-01-01T00:00:00.123456789+01:00", "1600-12-31T23:59:59Z", "1601-01-01T00:00:00+00:01",
+                       "2000-01-01T00:00:00.99999995Z", "2000-01-01T00:00:00.999999999Z", "9999-12-31T23:59:59.999999999Z", "9999-12-31T23:59:59.000000001Z", "1600-12-31T23:59:59.999999999Z", "2015-06-30T23:59:60.99999999Z",
                        "9999-12-31T23:59:59.9999999Z", "9999-12-31T23:59:59-00:01", "2015-06-30T23:59:60Z", "2000-02-30T00:00:00Z", "2000-01-01", "x", "é", "0000-01-01T00:00:00Z"]),
         ] {
             for x in xs { v.push(Case::Parse(w, x.to_string())); }
@@ -310,14 +454,19 @@ impl Property for P {
             5..=8 => {
                 let uri = match r.below(8) { 0 | 1 | 2 => None, 3 => Some(String::new()), _ => Some(rne_str(r, 5)) };
                 let ns = if uri.is_none() || r.chance(1, 10) { rns(r) } else { 0 };
-                Case::Exp { svr: if r.chance(1, 3) { 0 } else { ru32(r) }, uri, ns, id: rid(r) }
+                let id = if r.chance(1, 4) {
+                    // what is special in a uri (escapes, the separators, the keywords) inside the identifier
+                    let n = 1 + r.below(4);
+                    Id::Str(Some((0..n).map(|_| *r.pick(&["%3b", "%25", ";", "%", "%3B", "nsu=", "ns=", "svr=", "x", "=", "3b", "25"])).collect()))
+                } else { rid(r) };
+                Case::Exp { svr: if r.chance(1, 3) { 0 } else { ru32(r) }, uri, ns, id }
             }
             9 => Case::Guid(rguid(r)),
             10 | 11 => Case::Range(rnr(r)),
             12 | 13 => Case::Date(rticks(r)),
             _ => {
                 let which = r.below(8) as u8;
-                let s = match r.below(5) { 0 => rstr(r, 8), 1 => printed(r, which), _ => { let p = printed(r, which); mutate(r, &p) } };
+                let s = if which >= 6 && r.chance(1, 2) { date_text(r) } else { match r.below(5) { 0 => rstr(r, 8), 1 => printed(r, which), _ => { let p = printed(r, which); mutate(r, &p) } } };
                 Case::Parse(which, s)
             }
         }
@@ -328,72 +477,91 @@ impl Property for P {
         match c {
             Case::Node { ns, id } => {
                 let v = NodeId::new(*ns, ident(id));
-                let s = match guarded(|| v.to_string()) { Ok(s) => s, Err(_) => { return Out { tag: "node-printpanic".into(), term: format!("(CNode {} {})", ns, t_id(id)), out: vec![-2] } } };
-                enc_str(&s, &mut out);
-                res(|| NodeId::from_str(&s), enc_node, &mut out);
-                tag = format!("node-{}{}", match id { Id::Num(_) => "num", Id::Str(Some(x)) if !x.is_empty() => "str", Id::Guid(_) => "guid", Id::Bytes(Some(x)) if !x.is_empty() => "bytes", _ => "emptyid" },
-                              if *ns == 0 { "-ns0" } else { "" });
+                for n in nb_nodes(*ns, id) { let _ = guarded(|| { let s = n.to_string(); let _ = NodeId::from_str(&s); let _ = ExpandedNodeId::from_str(&s); }); }
+                if let Ok(s) = guarded(|| v.to_string()) { for x in nb_strings(&s) { parse_any(0, &x); } }
+                twice(|o| match guarded(|| v.to_string()) {
+                    Ok(s) => { enc_str(&s, o); res(|| NodeId::from_str(&s), enc_node, o); }
+                    Err(_) => o.push(-2),
+                }, &mut out);
+                tag = if out == vec![-2] { "node-printpanic".to_string() } else {
+                    format!("node-{}{}", match id { Id::Num(_) => "num", Id::Str(Some(x)) if !x.is_empty() => "str", Id::Guid(_) => "guid", Id::Bytes(Some(x)) if !x.is_empty() => "bytes", _ => "emptyid" },
+                              if *ns == 0 { "-ns0" } else { "" }) };
                 term = format!("(CNode {} {})", ns, t_id(id));
             }
             Case::Exp { svr, uri, ns, id } => {
-                let v = ExpandedNodeId { node_id: NodeId::new(*ns, ident(id)), namespace_uri: match uri { None => UAString::null(), Some(u) => UAString::from(u.as_str()) }, server_index: *svr };
-                let s = match guarded(|| v.to_string()) { Ok(s) => s, Err(_) => String::from("\u{0}PANIC") };
-                enc_str(&s, &mut out);
-                res(|| ExpandedNodeId::from_str(&s), enc_exp, &mut out);
+                let v = mk_exp(*svr, uri, *ns, id);
+                for n in nb_exps(*svr, uri, *ns, id) { let _ = guarded(|| { let s = n.to_string(); let _ = ExpandedNodeId::from_str(&s); }); }
+                // the plain NodeId of the same value goes through Identifier / NodeId code shared with this one
+                let _ = guarded(|| { let s = v.node_id.to_string(); let _ = NodeId::from_str(&s); });
+                if let Ok(s) = guarded(|| v.to_string()) { for x in nb_strings(&s) { parse_any(1, &x); } }
+                twice(|o| {
+                    let s = match guarded(|| v.to_string()) { Ok(s) => s, Err(_) => String::from("\u{0}PANIC") };
+                    enc_str(&s, o);
+                    res(|| ExpandedNodeId::from_str(&s), enc_exp, o);
+                }, &mut out);
                 tag = format!("exp-{}-{}", match uri { None => "nouri", Some(u) if u.is_empty() => "emptyuri", _ => "uri" }, if *svr == 0 { "svr0" } else { "svr" });
                 term = format!("(CExp {} {} {} {})", svr, t_ostr(uri), ns, t_id(id));
             }
             Case::Guid(b) => {
                 let g = Guid::from_bytes(*b);
-                let s = g.to_string();
-                enc_str(&s, &mut out);
-                res(|| Guid::from_str(&s), |g: &Guid, o: &mut Vec<i128>| o.extend(g.as_bytes().iter().map(|x| *x as i128)), &mut out);
+                for n in nb_id(&Id::Guid(*b)) { if let Id::Guid(x) = n { let s = Guid::from_bytes(x).to_string(); let _ = guarded(|| Guid::from_str(&s)); } }
+                for x in nb_strings(&g.to_string()) { parse_any(3, &x); }
+                twice(|o| {
+                    let s = g.to_string();
+                    enc_str(&s, o);
+                    res(|| Guid::from_str(&s), |g: &Guid, o: &mut Vec<i128>| o.extend(g.as_bytes().iter().map(|x| *x as i128)), o);
+                }, &mut out);
                 tag = "guid".into();
                 term = format!("(CGuid {})", zbytes(b));
             }
             Case::Range(x) => {
                 let v = nr(x);
-                let s = v.as_string();
-                enc_str(&s, &mut out);
-                res(|| NumericRange::from_str(&s), enc_range, &mut out);
-                out.push(if v.is_valid() { 1 } else { 0 });
+                for n in nb_nr(x) { let _ = guarded(|| { let w = nr(&n); let s = w.as_string(); let _ = NumericRange::from_str(&s); let _ = w.is_valid(); }); }
+                for y in nb_strings(&v.as_string()) { parse_any(4, &y); }
+                twice(|o| {
+                    let s = v.as_string();
+                    enc_str(&s, o);
+                    res(|| NumericRange::from_str(&s), enc_range, o);
+                    o.push(if v.is_valid() { 1 } else { 0 });
+                }, &mut out);
                 tag = format!("range-{}", match x { NR::None => "none", NR::One(R1::Idx(_)) => "index", NR::One(_) => "range", NR::Multi(v) if v.len() < 2 || v.len() > 10 => "multi-oddcount", _ => "multi" });
                 term = format!("(CRange {})", t_nr(x));
             }
             Case::Date(t) => {
-                match guarded(|| DateTime::from(*t)) {
-                    Err(_) => out.push(-2),
+                for n in nb_ticks(*t) { let _ = guarded(|| { let d = DateTime::from(n); let s = d.to_string(); let _ = DateTime::from_str(&s); let s2 = d.to_rfc3339(); let _ = DateTime::parse_from_rfc3339(&s2); }); }
+                twice(|o| match guarded(|| DateTime::from(*t)) {
+                    Err(_) => o.push(-2),
                     Ok(d) => {
                         let s = d.to_string();
-                        enc_str(&s, &mut out);
-                        res(|| DateTime::from_str(&s), enc_date, &mut out);
+                        enc_str(&s, o);
+                        res(|| DateTime::from_str(&s), enc_date, o);
                         let s2 = d.to_rfc3339();
-                        enc_str(&s2, &mut out);
-                        res(|| DateTime::parse_from_rfc3339(&s2), enc_date, &mut out);
+                        enc_str(&s2, o);
+                        res(|| DateTime::parse_from_rfc3339(&s2), enc_date, o);
                     }
-                }
+                }, &mut out);
                 tag = format!("date-{}", if *t < 0 || *t > END_TICKS { "outofrange" } else if t % 10_000_000 == 0 { "sec" } else if t % 10_000 == 0 { "ms" } else { "tick" });
                 term = format!("(CDate {})", z(*t as i128));
             }
             Case::Parse(w, s) => {
                 // for the two DateTime parsers chrono is an oracle: its verdict on `s` goes into the case
                 let mut aux = "None".to_string();
+                for x in nb_strings(s) { parse_any(*w, &x); }
                 match w {
-                    0 => res(|| NodeId::from_str(s), enc_node, &mut out),
-                    1 => res(|| ExpandedNodeId::from_str(s), enc_exp, &mut out),
-                    2 => res(|| Identifier::from_str(s), enc_ident, &mut out),
-                    3 => res(|| Guid::from_str(s), |g: &Guid, o: &mut Vec<i128>| o.extend(g.as_bytes().iter().map(|x| *x as i128)), &mut out),
-                    4 => res(|| NumericRange::from_str(s), enc_range, &mut out),
-                    5 => res(|| ByteString::from_base64(s).ok_or(()), enc_bytes, &mut out),
-                    6 => {
-                        if let Ok(Ok(d)) = guarded(|| chrono::DateTime::<chrono::Utc>::from_str(s)) { aux = format!("(Some ({}, {}))", z(d.timestamp() as i128), d.timestamp_subsec_nanos()); }
-                        res(|| DateTime::from_str(s), enc_date, &mut out)
-                    }
-                    _ => {
-                        if let Ok(Ok(d)) = guarded(|| chrono::DateTime::parse_from_rfc3339(s)) { let d = d.with_timezone(&chrono::Utc); aux = format!("(Some ({}, {}))", z(d.timestamp() as i128), d.timestamp_subsec_nanos()); }
-                        res(|| DateTime::parse_from_rfc3339(s), enc_date, &mut out)
-                    }
+                    6 => { if let Ok(Ok(d)) = guarded(|| chrono::DateTime::<chrono::Utc>::from_str(s)) { aux = format!("(Some ({}, {}))", z(d.timestamp() as i128), d.timestamp_subsec_nanos()); } }
+                    7 => { if let Ok(Ok(d)) = guarded(|| chrono::DateTime::parse_from_rfc3339(s)) { let d = d.with_timezone(&chrono::Utc); aux = format!("(Some ({}, {}))", z(d.timestamp() as i128), d.timestamp_subsec_nanos()); } }
+                    _ => {}
                 }
+                twice(|o| match w {
+                    0 => res(|| NodeId::from_str(s), enc_node, o),
+                    1 => res(|| ExpandedNodeId::from_str(s), enc_exp, o),
+                    2 => res(|| Identifier::from_str(s), enc_ident, o),
+                    3 => res(|| Guid::from_str(s), |g: &Guid, o: &mut Vec<i128>| o.extend(g.as_bytes().iter().map(|x| *x as i128)), o),
+                    4 => res(|| NumericRange::from_str(s), enc_range, o),
+                    5 => res(|| ByteString::from_base64(s).ok_or(()), enc_bytes, o),
+                    6 => res(|| DateTime::from_str(s), enc_date, o),
+                    _ => res(|| DateTime::parse_from_rfc3339(s), enc_date, o),
+                }, &mut out);
                 tag = format!("parse{}-{}", w, match out[0] { 1 => "ok", -1 => "err", _ => "panic" });
                 term = format!("(CParse {} {} {})", w, t_str(s), aux);
             }
